@@ -46,6 +46,8 @@ DecBridge == (kind = "dec" /\ A!DecInv(d)) => \A P \in A!Precisions :
                 w == A!WordAt(d.data, d.pos + 1)
             IN IF r1 < T THEN n.range = r1 * B /\ Off(n) = o1 * B + w
                ELSE n.range = r1 /\ Off(n) = o1
+\* (the conjunct on n.range below is, verbatim, the action StepE of proofs/RangeMessage.tla, whose theorem EncoderMessage shows
+\* T <= range <= 2^S for messages of any length)
 EncBridge == kind = "enc" => \A P \in A!Precisions : \A cp \in A!Slots(P) :
     LET N == 2^P
         n == A!REnc(e, P, cp[1], cp[2])
